@@ -214,11 +214,22 @@ func main() {
 		}
 		return
 	}
+	// sharding: c12s <tier> <k> <n> runs the programs whose index is k modulo n
+	shardK, shardN := 0, 1
+	if len(os.Args) > 3 {
+		fmt.Sscan(os.Args[2], &shardK)
+		fmt.Sscan(os.Args[3], &shardN)
+	}
+	pi := -1
 	for ki, kk := range kinds {
 		bls := strings.HasPrefix(kk.name, "BLS")
 		for a := range ops {
 			for b := a; b < len(ops); b++ {
 				if !bls && (ops[a].blsOnly || ops[b].blsOnly) {
+					continue
+				}
+				pi++
+				if pi%shardN != shardK {
 					continue
 				}
 				r := runProgram(ki, a, b, bound, maxExec)
